@@ -9,6 +9,20 @@ use crate::{
     value::{JsSymbol, Numeric, PreferredType},
 };
 
+/// [`Number::exponentiate ( base, exponent )`][spec]
+///
+/// Differs from `f64::powf` (C `pow`) where ECMAScript does: a `NaN` exponent gives `NaN` even
+/// for a base of 1, and a base of +-1 with an infinite exponent gives `NaN`.
+///
+/// [spec]: https://tc39.es/ecma262/#sec-numeric-types-number-exponentiate
+fn number_exponentiate(base: f64, exponent: f64) -> f64 {
+    if exponent.is_nan() || (base.abs() == 1.0 && exponent.is_infinite()) {
+        f64::NAN
+    } else {
+        base.powf(exponent)
+    }
+}
+
 impl JsValue {
     /// Perform the binary `+` operator on the value and return the result.
     pub fn add(&self, other: &Self, context: &mut Context) -> JsResult<Self> {
@@ -210,32 +224,16 @@ impl JsValue {
                 .ok()
                 .and_then(|y| x.checked_pow(y))
                 .map_or_else(|| Self::new(f64::from(x).powi(y)), Self::new),
-            (JsVariant::Float64(x), JsVariant::Float64(y)) => {
-                if x.abs() == 1.0 && y.is_infinite() {
-                    Self::nan()
-                } else {
-                    Self::new(x.powf(y))
-                }
-            }
+            (JsVariant::Float64(x), JsVariant::Float64(y)) => Self::new(number_exponentiate(x, y)),
             (JsVariant::Integer32(x), JsVariant::Float64(y)) => {
-                if x.wrapping_abs() == 1 && y.is_infinite() {
-                    Self::nan()
-                } else {
-                    Self::new(f64::from(x).powf(y))
-                }
+                Self::new(number_exponentiate(f64::from(x), y))
             }
             (JsVariant::Float64(x), JsVariant::Integer32(y)) => Self::new(x.powi(y)),
             (JsVariant::BigInt(a), JsVariant::BigInt(b)) => Self::new(JsBigInt::pow(&a, &b)?),
 
             // Slow path:
             (_, _) => match (self.to_numeric(context)?, other.to_numeric(context)?) {
-                (Numeric::Number(a), Numeric::Number(b)) => {
-                    if a.abs() == 1.0 && b.is_infinite() {
-                        Self::nan()
-                    } else {
-                        Self::new(a.powf(b))
-                    }
-                }
+                (Numeric::Number(a), Numeric::Number(b)) => Self::new(number_exponentiate(a, b)),
                 (Numeric::BigInt(ref a), Numeric::BigInt(ref b)) => Self::new(JsBigInt::pow(a, b)?),
                 (_, _) => {
                     return Err(JsNativeError::typ()
@@ -779,11 +777,7 @@ impl JsValue {
         }
         let x = self.as_number_cheap()?;
         let y = other.as_number_cheap()?;
-        if x.abs() == 1.0 && y.is_infinite() {
-            Some(Self::nan())
-        } else {
-            Some(Self::new(x.powf(y)))
-        }
+        Some(Self::new(number_exponentiate(x, y)))
     }
 
     /// Fast path for the binary `&` operator (i32 only).
